@@ -54,6 +54,19 @@ def array_recipe(rng, rows, dtype=None, width=None, order=None, layout=None, kin
     return rc
 
 
+NP_NAME = {'i1': 'int8', 'i2': 'int16', 'i4': 'int32', 'u1': 'uint8', 'u2': 'uint16', 'u4': 'uint32', 'f4': 'float32', 'f8': 'float64'}
+NP_CODE = {v: k for k, v in NP_NAME.items()}
+
+
+def cast_literal(rng, np_name):
+    """A cast dtype literal: the numpy scalar type, or a dtype object with an explicit (possibly non-native) byte order."""
+    if rng.random() < 0.65:
+        return {'$dtype': np_name}
+    code = NP_CODE[np_name]
+    bo = '|' if code[1] == '1' else rng.choice(['>', '>', '<', '='])
+    return {'$npdtype': bo + code}
+
+
 def index_recipe(rng, rows, dtype=None, mode=None):
     """A 1-D index channel: uniform / near-uniform / monotone / constant / noisy."""
     dt = dtype or pick(rng, ['f8', 'f8', 'f4', 'i4', 'i2', 'u2', 'u4', 'u1', 'i1'])
@@ -170,7 +183,7 @@ class Spec:
 
 
 def frame_block(spec, lfi, rng, rows=None, n_ch=None, index=None, used=None, max_width=12, dtypes=None, inline=True,
-                hc=False):
+                hc=False, set_name=None, frame_used=None):
     """One frame with its channels (inline data). Guarantees the FDATA body is >= 12 bytes."""
     used = used if used is not None else set()
     rows = rows or rng.choice([1, 2, 3, 5, 8, 13, rng.randint(1, 40)])
@@ -191,7 +204,9 @@ def frame_block(spec, lfi, rng, rows=None, n_ch=None, index=None, used=None, max
         recs.append((nm, rc))
         w = rc['shape'][1] if len(rc['shape']) > 1 else 1
         rowbytes += SIZES[rc['dtype'][1:]] * w
-    fname = name(rng, None, hc=hc)
+    fname = name(rng, frame_used, hc=hc)
+    if frame_used is not None:
+        frame_used.add(fname)
     if rowbytes + len(fname) + 4 < 12:
         # writer refuses records shorter than 12 bytes (subject of C15, not applicable): stay inside the domain
         nm, rc = recs[-1]
@@ -203,9 +218,10 @@ def frame_block(spec, lfi, rng, rows=None, n_ch=None, index=None, used=None, max
             rc = array_recipe(rng, rows, dtype='u1' if dtypes and 'u1' in dtypes else rc['dtype'][1:],
                               width=max(need, 1) // SIZES[rc['dtype'][1:]] + 1)
         recs[-1] = (nm, rc)
+    ckw = {'set_name': set_name} if set_name is not None else {}
     for nm, rc in recs:
-        chans.append(spec.channel(lfi, nm, rc if inline else None))
-    kw = {}
+        chans.append(spec.channel(lfi, nm, rc if inline else None, **ckw))
+    kw = dict(ckw)
     if index:
         kw['index_type'] = rng.choice(['BOREHOLE-DEPTH', 'VERTICAL-DEPTH', 'NON-STANDARD', 'TIME'] if not hc
                                       else ['BOREHOLE-DEPTH', 'VERTICAL-DEPTH', 'NON-STANDARD'])
